@@ -252,11 +252,19 @@ def run_tensor(case) -> CaseResult:
     res.labels += [f"dtype={dt}", f"rank={x.dim()}", f"layout={case['layout']}"] + (["empty"] if x.numel() == 0 else [])
     keep = x.clone()
     fmt = FPFormat(E, M, rounding="nearest")
+    # the process-wide default dtype in force during the call (torch.set_default_dtype) must not matter
+    dd = [None, None, None, "float64", "bfloat16", "float16"][case["seed"] % 6]
+    old_default = torch.get_default_dtype()
     try:
+        if dd:
+            torch.set_default_dtype(getattr(torch, dd))
+            res.labels.append("default-dtype=" + dd)
         q = fmt.quantise(x)
     except Exception as e:  # noqa: BLE001
         res.fail(exc_bucket(f"C13.raises.tensor:{tag}", e), f"E{E}M{M} shape={list(x.shape)} {dt}: {type(e).__name__}: {e}")
         return res
+    finally:
+        torch.set_default_dtype(old_default)
     if not isinstance(q, torch.Tensor) or q.shape != x.shape or q.dtype != x.dtype:
         res.fail(f"C13.shape.tensor:{tag}", f"E{E}M{M} in {list(x.shape)} {x.dtype} -> out {list(getattr(q, 'shape', []))} {getattr(q, 'dtype', None)}")
         return res
